@@ -1873,7 +1873,14 @@ namespace jsoncons {
                                     double val2 = rhs.as_double();
                                     if (val1 == val2)
                                     {
-                                        return 0;
+                                        // two big numbers with the same nearest double: tell them apart by their exact text
+                                        auto sv1 = as_string_view();
+                                        auto sv2 = rhs.as_string_view();
+                                        const bool negative = !sv1.empty() && sv1[0] == '-' && !sv2.empty() && sv2[0] == '-';
+                                        int diff = (tag() == semantic_tag::bigint && rhs.tag() == semantic_tag::bigint && sv1.size() != sv2.size()) 
+                                            ? (sv1.size() < sv2.size() ? -1 : 1) : sv1.compare(sv2);
+                                        diff = diff == 0 ? 0 : (diff < 0 ? -1 : 1);
+                                        return negative ? -diff : diff;
                                     }
                                     auto r = val1 - val2; 
                                     return r == 0 ? 0 : (r < 0.0 ? -1 : 1);
